@@ -342,7 +342,8 @@ Definition format_day_of_week (t : gotime) (mk : marker) : lres string :=
   else err_unsupported.
 
 (* formatHour *)
-Definition hour12_of (h : Z) : Z := if 12 <? h then h - 12 else h.
+(* 12-hour clock: 12, 1..11 (repaired in /repo: midnight and noon are 12) *)
+Definition hour12_of (h : Z) : Z := if h mod 12 =? 0 then 12 else h mod 12.
 Definition format_hour (t : gotime) (mk : marker) (hour12 : bool) : lres string :=
   if negb (is_decimal_format (mk_format mk)) then err_unsupported
   else
